@@ -80,6 +80,8 @@ def main(tier):
                    'determ-inner' if GATE_INNER_PRAGMA else 'determ-inner(ungated)', invariants=inv)
 
     trace_part(chk, tier)
+    from harness import suite
+    suite.part(chk, 'C13')      # the repository's own test-suite as a trace corpus
     return chk.finish()
 
 
